@@ -155,4 +155,8 @@ def pin():
 if __name__ == '__main__':
     if '--pin' in sys.argv:
         pin()
+        import json
+        sys.path.insert(0, str(VERIF / 'harness'))
+        import common
+        common.PINS.write_text(json.dumps(common.source_fingerprints(REPO), indent=0) + '\n')
     regenerate()
